@@ -306,7 +306,7 @@ func TestC11(t *testing.T) {
 
 	// "ab" and "a+b" show the same text with a different split into runs
 	texts3 := []string{"a", "b", "a|b"}
-	textsR := []string{"a", "b", "a|b", "ab", "a+b", "a|+b", "a|", "|a", " a", "a ", "a| b", "liquid", "costarring", "Aa", "BB", "plumless", "buckeroo", "hetairas", "mentioner", "~", "", "A", "B", "a|B", "caf\u00e9", "cafe\u0301", "\u212b", "\u00c5"} // "a|" and "|a": "a" with an empty line after or before it; " a", "a ", "a| b": padded with a blank (all other texts than "a" / "a|b")
+	textsR := []string{"a", "b", "a|b", "ab", "a+b", "a|+b", "a|", "|a", " a", "a ", "a| b", "liquid", "costarring", "Aa", "BB", "plumless", "buckeroo", "hetairas", "mentioner", "~", "", "A", "B", "a|B", "caf\u00e9", "cafe\u0301", "\u212b", "\u00c5", "AT&amp;T", "AT&T", "a&lt;b", "a<b"} // "a|" and "|a": "a" with an empty line after or before it; " a", "a ", "a| b": padded with a blank (all other texts than "a" / "a|b")
 	// Exhaustive: every list (any order) of <=4 cues on the 0..N grid with 3 texts.
 	grid := func(name string, maxN int, max int64) {
 		sub(t, name, func(t *testing.T) {
